@@ -32,7 +32,10 @@ MsPtype(b0) == IF Bit(b0, 3) = 1 THEN (IF Bit(b0, 2) = 1 THEN 2 ELSE 3)   \* 2 e
 
 \* ---- field sequences -------------------------------------------------------
 FldEth(b, o)  == Sub(b, o, 12) \o <<U16(b, o + 12)>>
-FldSll(b, o)  == <<U16(b, o), U16(b, o + 2), U16(b, o + 4)>> \o Sub(b, o + 6, 8) \o <<U16(b, o + 14)>>
+\* what the protocol type field means depends on the ARP hardware type (LINKTYPE_LINUX_SLL): 1 netlink protocol, 2 GRE protocol type,
+\* 3 ether type, 4 one of the Linux "non standard" ether types, 0 ignored (FRAD, radiotap)
+SllProtoKind(hw, v) == IF hw = 824 THEN 1 ELSE IF hw = 778 THEN 2 ELSE IF hw = 1 THEN (IF v \in SllNonStd THEN 4 ELSE 3) ELSE 0
+FldSll(b, o)  == <<U16(b, o), U16(b, o + 2), U16(b, o + 4)>> \o Sub(b, o + 6, 8) \o <<U16(b, o + 14), SllProtoKind(U16(b, o + 2), U16(b, o + 14))>>
 FldVlan(b, o) == <<Bits(B(b, o), 5, 3), Bit(B(b, o), 4), Bits(B(b, o), 0, 4) * 256 + B(b, o + 1), U16(b, o + 2)>>
 FldMacsec(b, o, hl) ==
   LET b0 == B(b, o) IN
